@@ -68,6 +68,13 @@ def fault_specs(progs, sem, tier, rng):
                 specs.append(psrun.make_spec(p, sem[p["name"]], {"kind": "random", "seed": rng.randrange(1 << 30), "penv": rng.choice([0.4, 0.8])},
                                              name="%s#hb%d" % (p["name"], n),
                                              faults={"%s/%s/%d" % (i["inst"], i["kind"], i["chunk"]): "vanish-heartbeat"}, restart=True))
+            # cluster mode with a queue query (grace period 3000 s): the job dies without ever
+            # having sent a heartbeat; the cluster's queue no longer lists it
+            for n in range({"quick": 2, "thorough": 10}[tier]):
+                i = rng.choice(jobs)
+                specs.append(psrun.make_spec(p, sem[p["name"]], {"kind": "random", "seed": rng.randrange(1 << 30), "penv": rng.choice([0.4, 0.8])},
+                                             name="%s#qv%d" % (p["name"], n), maxjobs=3, queue_check=True,
+                                             faults={"%s/%s/%d" % (i["inst"], i["kind"], i["chunk"]): "vanish"}, restart=True))
         for n, (key, kind) in enumerate(chosen[:max(per_prog, len(seen))]):
             sc = {"kind": "random", "seed": rng.randrange(1 << 30), "penv": rng.choice([0.3, 0.6, 0.9])}
             specs.append(psrun.make_spec(p, sem[p["name"]], sc, name="%s#f%d" % (p["name"], n),
@@ -254,7 +261,7 @@ def run(tier, replay=None):
         "monitor_records": len(records), "known_findings_hit": hit,
         "process_runs_with_persistent_faults": proc_report, "retry_table_runs": retry_report, "retry_model_states": retry_states,
     }, COMMON_ASSUMPTIONS + [
-        "fault manifestations injected by the table-driven stage code: a job that sends a heartbeat and vanishes (the driver lets the heartbeat time-out pass through the verif export VerifAgeHeartbeats), _errors, _assert, truncated _outs, missing output key, wrong JSON type, malformed _stage_defs; exit-status-only and signal deaths are produced by real stage processes under mrjob with the real mrp and its default automatic retry (4 process runs)",
+        "fault manifestations injected by the table-driven stage code: a job that sends a heartbeat and vanishes (the driver lets the heartbeat time-out pass through the verif export VerifAgeHeartbeats), a cluster job that vanishes from the queue (real RemoteJobManager with a queue query command answered by the driver, grace period 3000 s; the driver lets the query interval and then the grace period pass through VerifAgeQueueCheck), _errors, _assert, truncated _outs, missing output key, wrong JSON type, malformed _stage_defs; exit-status-only and signal deaths are produced by real stage processes under mrjob with the real mrp and its default automatic retry (4 process runs)",
         "after the failure mrp's exit is modelled as in cmd/mrp: Unlock, local jobs die; then a fresh Runtime re-attaches (ReattachToPipestance, Reset, RestartLocalJobs) with the fault removed",
         "'independent calls are unaffected' is checked in its minimal reading: results recorded before the failure are not executed again and the restarted run completes with the reference outputs",
     ], time.time() - t0, violations=nunk)
